@@ -57,7 +57,9 @@ SPELL = {
     "plain": [["x"], ["a:b"], [":a:"], ["::::x"], ["****"], ["a: b"], ["*x"], ["* *"], ["1"], ["-"],
               ["a::"], [":a: "], ["x", "", ""], ["*****"], ["a:\n:"]],
     "native": [[{"i": 1}], [{"f": "0x1.8p+0"}, "x"], [{"b": True}], [{"d": "2020-01-02T03:04:05"}],
-               [{"o": "date"}], [{"i": 0}, None], [{"b": False}, ""]],
+               [{"o": "date"}], [{"i": 0}, None], [{"b": False}, ""],
+               # native missing values are values, not blank cells: such a row continues its block
+               [{"f": "nan"}, "x"], [{"nat": 1}], [{"f": "nan"}]],
 }
 KINDS = list(SPELL)
 ALPHA = "*:a \n"
